@@ -482,8 +482,7 @@ func (p *untypedParamBinder) setSliceFieldValue(target reflect.Value, defaultVal
 		return nil
 	}
 	if sz == 0 {
-		target.Set(defVal)
-		return nil
+		return p.setSliceDefault(target, defVal)
 	}
 
 	value := reflect.MakeSlice(reflect.SliceOf(target.Type().Elem()), sz, sz)
@@ -494,6 +493,37 @@ func (p *untypedParamBinder) setSliceFieldValue(target reflect.Value, defaultVal
 		}
 	}
 
+	target.Set(value)
+
+	return nil
+}
+
+// setSliceDefault sets the declared default of an array parameter. A default read from a spec
+// document is a []interface{}: its items are converted to the item type one by one, like the
+// default of a scalar parameter.
+func (p *untypedParamBinder) setSliceDefault(target, defVal reflect.Value) error {
+	if defVal.Type().AssignableTo(target.Type()) {
+		target.Set(defVal)
+		return nil
+	}
+	if defVal.Kind() != reflect.Slice {
+		return errors.InvalidType(p.Name, p.parameter.In, typeArray, nil)
+	}
+
+	sz := defVal.Len()
+	value := reflect.MakeSlice(target.Type(), sz, sz)
+	for i := 0; i < sz; i++ {
+		item := defVal.Index(i)
+		if item.Kind() == reflect.Interface {
+			item = item.Elem()
+		}
+		if !item.IsValid() {
+			return errors.InvalidType(p.Name, p.parameter.In, typeArray, nil)
+		}
+		if err := p.setFieldValue(value.Index(i), item.Interface(), "", true); err != nil {
+			return err
+		}
+	}
 	target.Set(value)
 
 	return nil
